@@ -72,7 +72,8 @@ type settings struct {
 	Sel     string   `json:"selector"` // default | list | all | fn
 	List    []string `json:"list,omitempty"`
 	FnAns   bool     `json:"fn_answer,omitempty"`
-	RespAE  string   `json:"resp_accept_encoding,omitempty"` // Accept-Encoding header on the RESPONSE
+	RespAE  string   `json:"resp_accept_encoding,omitempty"` // Accept-Encoding header on the RESPONSE (RFC 9110 12.5.3, e.g. on 415)
+	RespCE  string   `json:"resp_content_encoding,omitempty"` // Content-Encoding still on the response when it reaches the charset stage (body left encoded)
 }
 
 func (s settings) name() string {
@@ -88,6 +89,9 @@ func (s settings) name() string {
 	}
 	if s.RespAE != "" {
 		n += "+respAE"
+	}
+	if s.RespCE != "" {
+		n += "+respCE"
 	}
 	return n
 }
@@ -147,6 +151,7 @@ type unitCase struct {
 	Pattern  []int    `json:"caller_sizes"`
 	BufMode  string   `json:"buf_mode"` // zero | stale-meta | aa | reuse | fill
 	FailAt   int      `json:"fail_after_chunks"` // -1 = none
+	Group     int     `json:"interleaved_group,omitempty"` // > 0: read interleaved with the other readers of this group on one transport
 	Stack     string  `json:"stack,omitempty"`   // e2e: h1-cl | h1-chunked | h1-close | h2 | h3
 	GapMS     int     `json:"gap_ms,omitempty"`  // e2e: pause between segments
 	HighLevel bool    `json:"high_level,omitempty"` // e2e: Client.R().Get + Response.Bytes()
@@ -247,6 +252,14 @@ func readLoop(body io.ReadCloser, pattern []int, mode string, maxCalls int, o *o
 	}
 }
 
+// delivered: the chunks that reach the reader (all of them, or those before the scripted failure)
+func (u *unitCase) delivered() [][]byte {
+	if u.FailAt >= 0 && u.FailAt <= len(u.Chunks) {
+		return u.Chunks[:u.FailAt]
+	}
+	return u.Chunks
+}
+
 func maxCallsFor(u *unitCase) int {
 	return 3*len(u.Doc.Body) + 2*len(u.Chunks) + 64
 }
@@ -269,6 +282,9 @@ func driveUnit(u *unitCase) (o obs) {
 		}
 		if u.Set.RespAE != "" {
 			res.Header.Set("Accept-Encoding", u.Set.RespAE)
+		}
+		if u.Set.RespCE != "" {
+			res.Header.Set("Content-Encoding", u.Set.RespCE)
 		}
 		t := u.Set.transport()
 		t.VerifAutoDecodeResponseBody(res)
@@ -300,6 +316,7 @@ type tables struct {
 	Prescan   string       // charsets.prescan(first read): canonical name ("" = nil encoding)
 	Stream    map[string][]byte // name -> transform.Reader over the chunks, drained
 	All       map[string][]byte // name -> Decoder.Bytes(whole body)
+	Partial   map[string][]byte // name -> transform.Reader over the delivered chunks followed by a source error, drained
 	Takes     [][2]int          // (n, eofWithIt) of the reference transform.Reader per call
 	encs      map[string]encoding.Encoding
 }
@@ -358,7 +375,15 @@ func refTakes(e encoding.Encoding, src io.Reader, pattern []int, from, maxCalls 
 }
 
 func buildTables(u *unitCase) *tables {
-	t := &tables{Stream: map[string][]byte{}, All: map[string][]byte{}, encs: map[string]encoding.Encoding{}}
+	t := &tables{Stream: map[string][]byte{}, All: map[string][]byte{}, Partial: map[string][]byte{}, encs: map[string]encoding.Encoding{}}
+	chunks := u.delivered()
+	src := func(cs [][]byte) *scripted { // the network as the model sees it: these chunks, then EOF or the failure
+		s := newScripted(cs, u.EOFLast)
+		if u.FailAt >= 0 {
+			s.failAfter = len(cs)
+		}
+		return s
+	}
 	_, params, err := mime.ParseMediaType(u.Doc.CT)
 	switch {
 	case err != nil:
@@ -370,13 +395,20 @@ func buildTables(u *unitCase) *tables {
 			t.ParseKind = "none"
 		}
 	}
-	whole := bytes.Join(u.Chunks, nil)
+	whole := bytes.Join(chunks, nil)
 	add := func(name string, e encoding.Encoding) {
 		if _, ok := t.encs[name]; ok {
 			return
 		}
 		t.encs[name] = e
-		t.Stream[name] = drainStream(e, u.Chunks, u.EOFLast)
+		if u.FailAt >= 0 {
+			b, _ := io.ReadAll(transform.NewReader(src(chunks), e.NewDecoder()))
+			t.Partial[name] = b
+			full, _ := e.NewDecoder().Bytes(u.Doc.Body)
+			t.All[name] = full // of the COMPLETE body: the partial output must be a prefix of it
+			return
+		}
+		t.Stream[name] = drainStream(e, chunks, u.EOFLast)
 		d, _ := e.NewDecoder().Bytes(whole)
 		t.All[name] = d
 	}
@@ -385,10 +417,10 @@ func buildTables(u *unitCase) *tables {
 		if e, name := lookupLikeTransport(t.LookupIn); e != nil {
 			t.LookupOut = name
 			add(name, e)
-			t.Takes = refTakes(e, newScripted(u.Chunks, u.EOFLast), u.Pattern, 0, maxCallsFor(u))
+			t.Takes = refTakes(e, src(chunks), u.Pattern, 0, maxCallsFor(u))
 		}
 	}
-	if b, idx, ok := firstNonEmptyRead(u.Chunks, u.EOFLast, u.Pattern); ok {
+	if b, idx, ok := firstNonEmptyRead(chunks, u.EOFLast, u.Pattern); ok {
 		t.FindHas, t.FindIn = true, b
 		if !bytes.HasPrefix(whole, b) {
 			panic("harness: first non-empty read is not a prefix of the body")
@@ -415,7 +447,7 @@ func buildTables(u *unitCase) *tables {
 			if t.ParseKind != "charset" {
 				// the sniffing reader creates its stream decoder at call idx, over the whole body
 				// (everything before that call was an empty read)
-				rest := u.Chunks
+				rest := chunks
 				for len(rest) > 0 && len(rest[0]) == 0 {
 					rest = rest[1:]
 				}
@@ -428,7 +460,7 @@ func buildTables(u *unitCase) *tables {
 					}
 					after = append(after, rest[1:]...)
 				}
-				t.Takes = refTakes(e, io.MultiReader(bytes.NewReader(b), newScripted(after, u.EOFLast)), u.Pattern, idx, maxCallsFor(u))
+				t.Takes = refTakes(e, io.MultiReader(bytes.NewReader(b), src(after)), u.Pattern, idx, maxCallsFor(u))
 			}
 		}
 	}
